@@ -174,6 +174,9 @@ fn tree_diff_key(a: &str, b: &str) -> String {
 	format!("expected {} got {}", head(&pa, i, false), head(&pb, i, true))
 }
 
+pub fn norm_msg_pub(m: &str) -> String {
+	norm_msg(m)
+}
 fn norm_msg(m: &str) -> String {
 	let mut out = String::new();
 	let mut in_q = false;
